@@ -126,10 +126,18 @@ class Writer:
         self.fp: dict = {}
 
     def ns(self, name):
+        self.close_open()            # sections are sequential: a section that failed half-way must not swallow the next ones
         self.lines.append(f"\nnamespace {name}")
+        self.open_ns = name
 
     def end(self, name):
         self.lines.append(f"end {name}")
+        self.open_ns = None
+
+    def close_open(self):
+        if getattr(self, "open_ns", None):
+            self.lines.append(f"end {self.open_ns}")
+            self.open_ns = None
 
     def nat(self, name, v, key=None):
         self.lines.append(f"def {name} : Nat := {int(v)}")
@@ -972,6 +980,7 @@ def main() -> int:
         exec(compile(extra.read_text(), str(extra), "exec"), ns)
         ns["extract_more"](w, problems, get, func_literals, guid_bytes_le)
 
+    w.close_open()
     w.raw("\nend Hv.Extracted")
     text = "\n".join(w.lines) + "\n"
     old = OUT.read_text() if OUT.exists() else None
